@@ -159,6 +159,15 @@ class C02(Check):
             js.append(dict(kind='expr', tree=tojson(rchain(['+', '-', '*'] * 4, L4)), n=2, nan=False, assign=asg, minimal=True, probe=True))
             for f in ('AVG', 'SUM', 'MAX', 'MEDIAN'):     # an aggregate evaluated late in a long expression
                 js.append(dict(kind='expr', tree=tojson(('bin', '+', chain(['+'] * 9, [('name', 'a'), ('num', '2')]), ('fun', f, ('name', 'b')))), n=2, nan=False, assign=asg, minimal=True, probe=True))
+        # value-kind probes: both operands of an arithmetic operator are truth values (results of comparisons with a literal / external value)
+        cmps = [('bin', '>', ('name', 'a'), ('num', '0')), ('bin', '<', ('name', 'b'), ('num', '1')), ('bin', '>', ('name', 'b'), ('ext', 'k')), ('bin', '<', ('name', 'x'), ('num', '2'))]
+        for op in ('+', '-', '*'):
+            for c1 in cmps:
+                for c2 in cmps:
+                    js.append(dict(kind='expr', tree=tojson(('bin', op, c1, c2)), n=2, nan=False, assign=None, minimal=True, probe=True))
+        for f in ('SUM', 'AVG', 'MAX'):
+            js.append(dict(kind='expr', tree=tojson(('fun', f, ('bin', '+', cmps[0], cmps[1]))), n=3, nan=False, assign=None, minimal=True, probe=True))
+            js.append(dict(kind='expr', tree=tojson(('bin', '*', ('num', '2'), ('bin', '+', cmps[0], cmps[2]))), n=2, nan=False, assign='r', minimal=True, probe=True))
         # scale probes: long tracks (aggregates and series functions over 17 / 33 observations, NaN through D{})
         for n in (17, 33):
             for f in aflib.AGGREGATES:
